@@ -394,6 +394,7 @@ def _quiet():
 
 def solo_reference(args):
     """(runs in a pristine fork) one task alone, fault-free, pristine file system."""
+    W.reference_clock()
     sc, k = args
     W.install_seams()
     _quiet()
@@ -410,6 +411,7 @@ def solo_reference(args):
 def sequential_reference(args):
     """(pristine fork) all tasks one after the other in ONE interpreter, no faults,
     no stale files: separates schedule/crash dependence from leaked process state."""
+    W.reference_clock()
     sc, force_utf8 = args
     W.install_seams()
     _quiet()
@@ -916,6 +918,7 @@ def _hist_apply(h, wrappers, op):
 
 def history_reference(args):
     """(pristine fork) the op alone on a freshly created wrapper"""
+    W.reference_clock()
     h, i = args
     h.pop("_shared_subs", None)      # a pristine process has pristine option objects
     W.install_seams()
